@@ -5,7 +5,7 @@ symbolically.  `pow2`, `be`, `ipow`, `gcd`, `bitlen` ... are spec forms (vf/pyvc
 """
 
 SIG = {'is_floor_quotient': 'bool', 'is_residue': 'bool', 'is_bit_size': 'bool', 'is_byte_size': 'bool', 'is_isqrt': 'bool',
-       'random_top': 'int', 'random_value': 'int'}
+       'random_top': 'int', 'random_value': 'int', 'candidate': 'int', 'legacy_candidate': 'int'}
 
 
 def is_floor_quotient(a, d, q):
@@ -53,6 +53,25 @@ def random_value(b0, rest, s, exact):
     """value of Integer.random(bits): n = ceil(bits/8) bytes are read; the first byte b0 is masked to its s = bits - 8*(n-1)
     low bits (top bit forced for exact_bits), the other n-1 tape bytes `rest` are used as they are; big-endian"""
     return random_top(b0, s, exact) * pow2(8 * len(rest)) + be(rest)
+
+
+def candidate(tid, pos, bits, exact):
+    """the integer Integer.random(max_bits|exact_bits = bits) forms from the bytes of tape `tid` at cursor `pos`:
+    n = ceil(bits/8) bytes, the first masked to s = bits - 8*(n-1) bits (top bit forced when exact)"""
+    n = (bits - 1) // 8 + 1
+    s = 8 - (n * 8 - bits)
+    return random_value(nth(tapei(tid, pos, 1), 0), tapei(tid, pos + 1, n - 1), s, exact)
+
+
+def legacy_candidate(tid, pos, nbits):
+    """the integer Util.number.getRandomInteger(nbits) forms from tape `tid` at cursor `pos`: the q = nbits // 8 low-order
+    bytes come first; when r = nbits % 8 != 0 one more byte follows and its r HIGH bits become the most significant bits"""
+    q = nbits // 8
+    r = nbits % 8
+    low = be(tapei(tid, pos, q))
+    if r == 0:
+        return low
+    return (nth(tapei(tid, pos + q, 1), 0) // pow2(8 - r)) * pow2(8 * q) + low
 
 
 # ---- lemmas (statement = the Contract registered in contracts/_intcommon.py add_lemmas; proved by their own unit)
